@@ -1,5 +1,8 @@
 """C01 - every value a configuration holds satisfies its field's declared constraints."""
-from .. import gen, history, model
+import copy
+import random
+
+from .. import gen, history, model, spec
 from .c05 import env_of
 
 PLAN = {
@@ -15,7 +18,9 @@ RULE = ("a case is a random schema (all field families, nested schemas, config t
         "M-inv judges every readable value at every depth against the reference model, and after accepted assignments "
         "the whole state is compared with the prediction 'only this path changed, to the model's normal form'; "
         "non-trivial = >= 1 accepted and >= 1 rejected operation over >= 2 routes; distinct = distinct (schema, history)")
-REQUIRED = ("dict_updates_with_own_copy_and_keywords", "tuples_assigned_a_second_time", "copies_between_items_of_one_list", "inv_walks", "inv_values_judged", "readback_checks", "accepted_ops", "rejected_ops", "route:set", "route:set-sub",
+REQUIRED = ("derived_type_items_offered",
+            "dict_updates_with_own_copy_and_keywords", "tuples_assigned_a_second_time", "copies_between_items_of_one_list",
+            "inv_walks", "inv_values_judged", "readback_checks", "accepted_ops", "rejected_ops", "route:set", "route:set-sub",
             "route:ctor", "route:load_tree", "route:loads", "route:cmdline", "route:reset", "route:listop", "route:dictop", "route:serialize")
 ASSUMPTIONS = ["the reference model (vf/model.py) states the declared constraints; values whose status the documentation "
                "leaves open are not judged", "declared defaults are generated in normal form (the property is "
@@ -39,7 +44,177 @@ def generate(rng, ctx):
     for seq in probes[:3]:
         at = rng.randrange(len(ops) + 1)
         ops[at:at] = seq
+    # (drawn from a generator of its own, last: the rest of the case is what it was without this workload)
+    add_derived_items(random.Random(rng.getrandbits(64)), schema, ops, env)
     return {"schema": schema, "ops": ops}
+
+
+# ------------------------------------------------------------------------------------------------
+# items of a class DERIVED from the declared configuration type of a list
+#
+# A list declared as ListField(T) (T a configuration type) constrains its items through the fields of T's schema.  A class
+# derived from T that only adds methods shares that schema: its instances are items like any other.  A class derived from T
+# that sets a schema of its own (`__schema__`) holds values that were validated against THAT schema only, so the list may
+# take such an instance only if what becomes readable as an item still satisfies the declared fields (the library refuses
+# it, like any configuration built from another schema).  Whatever the library does, M-inv judges the readable items.
+
+DERIVED_HOWS = ["append", "insert", "setitem", "extend", "iadd", "setslice", "assign", "assign_path", "ctor"]
+ADDED_LIST_KEYS = ["services", "endpoints", "hooks"]  # (no key of the pool, no '_' or '.': no option-name collisions)
+
+
+def cfgtype_lists(schema):
+    return [(p, nd) for p, nd in spec.walk(schema) if nd["kind"] == "field" and nd["family"] == "list" and nd.get("item")
+            and nd["item"]["kind"] == "ctype"]
+
+
+def loose_values(rng, node, env, bad):
+    """One entry per stored child of a configuration-type node: {"v": value} (a value the declared field refuses with
+    probability `bad`, else one it accepts) or {"sub": {...}} for a nested section."""
+    out = {}
+    for ch in model.stored_children(node):
+        if ch["kind"] in ("schema", "ctype"):
+            out[ch["key"]] = {"sub": loose_values(rng, ch, env, bad)}
+        elif ch["family"] in ("include", "secure", "any", "challenge"):
+            out[ch["key"]] = {"v": None}
+        else:
+            out[ch["key"]] = {"v": gen.one_value(rng, ch, "invalid" if rng.random() < bad else "valid", env)}
+    return out
+
+
+def add_derived_items(rng, schema, ops, env):
+    lists = cfgtype_lists(schema)
+    if not lists and rng.random() < 0.3:
+        # a list of configuration types of its own, at the root or in a section of the root
+        holders = [("", schema)] + [(ch["key"], ch) for ch in schema["fields"] if ch["kind"] == "schema" and not ch.get("style")]
+        prefix, holder = rng.choice(holders)
+        used = {ch["key"] for ch in holder["fields"]}
+        keys = [k for k in ADDED_LIST_KEYS if k not in used]
+        if keys:
+            sub = gen.gen_schema(rng, rng.choice([0, 0, 1]), 3, None, False, False, 0)
+            node = {"kind": "field", "key": rng.choice(keys), "family": "list", "params": {},
+                    "item": {"kind": "ctype", "key": "", "name": "DV1", "schema": sub}}
+            holder["fields"].append(node)
+            # the usual operations on the new list (paths below a root that holds nothing else are paths of the case's root)
+            mini = {"kind": "schema", "key": "", "fields": [node]}
+            if prefix:
+                mini = {"kind": "schema", "key": "", "fields": [{"kind": "schema", "key": prefix, "fields": [node]}]}
+            for op in history.gen_ops(rng, mini, env, rng.choice([2, 4, 6]), bad=0.3):
+                if op["op"] in ("set", "listop", "load_tree", "reset", "copy"):
+                    ops.insert(rng.randrange(len(ops) + 1), op)
+            lists = cfgtype_lists(schema)
+    for path, nd in lists:
+        item = nd["item"]
+        new = []
+        if rng.random() < 0.7:
+            v = gen.one_value(rng, nd, "valid", env)
+            if v is not None:
+                new.append({"op": "set", "route": "attr", "path": path, "value": v})
+        for _ in range(rng.choice([1, 2, 3])):
+            op = {"op": "derived_item", "path": path, "how": rng.choice(DERIVED_HOWS), "i": rng.randrange(-3, 5),
+                  "a": rng.choice([None, 0, 1, -1]), "b": rng.choice([None, 0, 2, -1]), "at": rng.randrange(3),
+                  "extras": [gen.tree_for(rng, item, env, valid=True) for _ in range(rng.choice([0, 0, 1, 2]))]}
+            if rng.random() < 0.25:
+                op["variant"] = "same"  # methods only: the schema of the declared type
+                op["tree"] = gen.tree_for(rng, item, env, valid=True, partial=rng.choice([0.3, 0.9]))
+            else:
+                op["variant"] = "own"  # a schema of its own: the same names, fields that take anything
+                op["values"] = loose_values(rng, item, env, rng.choice([0.4, 0.7, 1.0]))
+                op["by_default"] = rng.random() < 0.5
+            new.append(op)
+        at = rng.randrange(len(ops) + 1)
+        for op in new:
+            ops.insert(at, op)
+            at = rng.randrange(at + 1, len(ops) + 1)
+
+
+def loose_schema(cc, values, by_default):
+    sch = cc.Schema()
+    for key, ent in values.items():
+        if "sub" in ent:
+            sch[key] = loose_schema(cc, ent["sub"], by_default)
+        elif by_default and ent["v"] is not None:
+            sch[key] = cc.AnyField(default=spec.realize(cc, copy.deepcopy(ent["v"])))
+        else:
+            sch[key] = cc.AnyField()
+    return sch
+
+
+def fill_loose(cc, inst, values):
+    for key, ent in values.items():
+        if "sub" in ent:
+            fill_loose(cc, inst[key], ent["sub"])
+        elif ent["v"] is not None:
+            inst[key] = spec.realize(cc, copy.deepcopy(ent["v"]))
+
+
+def derived_step(drv, op, res):
+    """Offer an instance of a class derived from the declared item type to the list at op["path"]; returns what
+    Driver.step returns (None = not applicable now).  Nothing is predicted: M-inv judges the state afterwards."""
+    cc, cfg = drv.cc, drv.cfg
+    op = spec.resolve(op, drv.mapping)
+    path = drv.concrete(op["path"])
+    if path is None:
+        return None
+    nd = drv.node(path)
+    if nd is None or nd.get("family") != "list" or not nd.get("item") or nd["item"]["kind"] != "ctype":
+        return None
+    item = nd["item"]
+    base = drv.built.types.get((item.get("name") or "T", item["schema"].get("share") or id(item)))
+    if base is None:
+        return None
+    parent_path, key = spec.split_parent(path)
+    try:
+        parent = spec.get_path(cfg, parent_path) if parent_path else cfg
+        proxy = spec.get_path(cfg, path)
+        if op["variant"] == "same":
+            derived = type(base.__name__ + "WithMethods", (base,), {"label": lambda self: "item %s" % type(self).__name__})
+            inst = derived()
+            inst.load_tree(copy.deepcopy(op["tree"]), validate=False)
+            inst.label()
+        else:
+            own = loose_schema(cc, op["values"], op["by_default"])
+            derived = type(base.__name__ + "Legacy", (base,), {"__schema__": own})
+            inst = derived()
+            if not op["by_default"]:
+                fill_loose(cc, inst, op["values"])
+        extras = [spec.realize(cc, copy.deepcopy(t)) for t in op["extras"]]
+    except Exception:
+        # (a tree the item type does not load, e.g. a number for an untyped secret: nothing to offer)
+        res.count("derived_type_items_not_built")
+        return None
+    if not isinstance(parent, cc.Config) or not isinstance(inst, base):
+        return None
+    items = extras[:op["at"]] + [inst] + extras[op["at"]:]
+    how = op["how"]
+    if how == "ctor" and ("." in path or "[" in path):
+        how = "assign_path"
+    if how == "assign_path" and "[" in path:
+        how = "assign"
+    if how not in ("assign", "assign_path", "ctor") and not isinstance(proxy, list):
+        how = "assign"
+    if how == "setitem" and len(proxy) == 0:
+        how = "append"
+    made = []
+    fn = {
+        "append": lambda: proxy.append(inst), "insert": lambda: proxy.insert(op["i"], inst),
+        "setitem": lambda: proxy.__setitem__(op["i"] % max(len(proxy), 1), inst),
+        "extend": lambda: proxy.extend(items), "iadd": lambda: proxy.__iadd__(items),
+        "setslice": lambda: proxy.__setitem__(slice(op["a"], op["b"]), items),
+        "assign": lambda: setattr(parent, key, items), "assign_path": lambda: cfg.__setitem__(path, items),
+        "ctor": lambda: made.append(cc.Config(drv.built.schema, key_filename=drv.keyfile, **{path: items})),
+    }[how]
+    before = drv.snapshot()
+    exc = drv._run(fn)
+    res.count("derived_type_items_offered" if op["variant"] == "own" else "derived_type_items_with_the_declared_schema_offered")
+    if exc is None:
+        res.count("derived_type_items_taken:" + op["variant"])
+    if made:
+        # a configuration of its own: judged here (the caller judges the driver's configuration)
+        check_inv(drv, res, drv.snapshot(made[0]).values, "derived-item:ctor(new configuration)")
+    pred = history.Prediction(None, None)
+    pred.unpredicted = True
+    return {"kind": "derived-item:" + how, "path": path, "raised": exc, "label": None, "pred": pred, "before": before,
+            "listed": False, "node": nd}
 
 
 def abbreviate(case):
@@ -72,7 +247,7 @@ def run(case, ctx, res):
         return
     routes, acc, rej = set(), 0, 0
     for idx, op in enumerate(case["ops"]):
-        out = drv.step(op)
+        out = derived_step(drv, op, res) if op["op"] == "derived_item" else drv.step(op)
         if out is None:
             res.count("ops_skipped")
             continue
